@@ -105,6 +105,10 @@ def compare(model: Model, ctx: TermCtx) -> List[Dict[str, Any]]:
         if impl is None:
             raise AnalysisError(f"anchor vanished: simplify_chained_calls.{entry}")
         spec = spec_function(model, src, "func_adl.ast.function_simplifier", "simplify_chained_calls")
+        from .normalise import unrolled
+
+        impl0 = impl
+        impl = unrolled(model, impl0)  # first-match dispatch over a literal table read as the if-chain it abbreviates
         fa_i = ctx.analysis(impl)
         fa_s = ctx.analysis(spec)
         src_i = ("visit", ("index", ("param", impl.pos_params[2]), 0))
@@ -121,7 +125,7 @@ def compare(model: Model, ctx: TermCtx) -> List[Dict[str, Any]]:
 
             if dynamic_dispatch(t) is not None:
                 raise AnalysisError(f"{entry} chooses the fusion method with getattr(self, <name computed from a table>): the (outer, inner) cases cannot be read off its branches; the fusion-law comparison does not apply to this shape")
-            rec = dict(entry=entry, branch=k, stmt=s, impl=impl, term=t)
+            rec = dict(entry=entry, branch=k, stmt=s, impl=impl0, term=t)
             if "!subject" in k:
                 rec["kind"] = "subject"
                 rec["why"] = "the inner operator is tested on something other than the visited source self.visit(args[0])"
@@ -147,7 +151,7 @@ def compare(model: Model, ctx: TermCtx) -> List[Dict[str, Any]]:
             out.append(rec)
         for k in spec_by_key:
             if k not in seen:
-                out.append(dict(entry=entry, branch=k, stmt=impl.node, impl=impl, kind="missing-branch", why=f"no path of {entry} implements the case {k}", term=None, want=spec_by_key[k]))
+                out.append(dict(entry=entry, branch=k, stmt=impl0.node, impl=impl0, kind="missing-branch", why=f"no path of {entry} implements the case {k}", term=None, want=spec_by_key[k]))
     return out
 
 
